@@ -121,6 +121,42 @@ def oracle_selfcheck(ctx, rng):
                                       "connections_without_dependence_witness_in_3_models": n_nowit}
 
 
+def _post_enumerator(snap, res, graph, *a, **k):
+    """'Every reported separation is a conditional independence': the judgements the enumerator publishes."""
+    from ..refgraph import RG
+
+    ref = RG.from_nx(graph)
+    if not ref.is_acyclic():
+        return
+    for j in res:
+        if not j.separated or j.left == j.right or not ({j.left, j.right} | set(j.conditions)) <= set(ref.V):
+            continue
+        kernel.count("C04:published-separations-checked")
+        if not ref.m_separated(j.left, j.right, set(j.conditions)):
+            kernel.violation(PROP, "published-separation", f"get_conditional_independencies reports {j.left} _||_ {j.right} | "
+                             f"{sorted(map(str, j.conditions))} but they are m-connected in {mon_dsep._gd(ref)}",
+                             case={"graph": mon_dsep._gd(ref), "enumerate": True,
+                                   "k": k.get("max_conditions")})
+
+
+def install_enumerator():
+    import y0.algorithm.conditional_independencies as ci
+
+    kernel.install_function(ci, "get_conditional_independencies", label="get_conditional_independencies",
+                            post=_post_enumerator)
+
+
+def enumerate_case(ctx, gd, k):
+    from y0.algorithm.conditional_independencies import get_conditional_independencies
+
+    kernel.LOG.reset_case({"graph": gd, "enumerate": True, "k": k})
+    try:
+        get_conditional_independencies(gg.to_nx(gd), max_conditions=k)
+    except Exception:  # noqa: BLE001  -- the enumerator's own contract is C15's
+        kernel.count("C04:enumerator-raised")
+    ctx.case(f"enum|{gg.key(gd)}|{k}", False)
+
+
 def cf_graph_for(gd, ev):
     from y0.algorithm.identify.cg import extract_interventions, make_parallel_worlds_graph
 
@@ -165,6 +201,7 @@ def cf_queries(ctx, gd, ev, rng, fixed=None):
 
 def run_shard(ctx):
     mon_dsep.install()
+    install_enumerator()
     rng = ctx.rng
     idx = 0
     for n in (2, 3):
@@ -206,6 +243,26 @@ def run_shard(ctx):
             if v1 != v2:
                 kernel.LOG.reset_case({"graph": gd, "graph2": gd2, "a": a, "b": b, "C": sorted(C)})
                 kernel.violation(PROP, "insertion-order", f"verdict {v1} vs {v2} for two insertion orders of one graph")
+    # large dense graphs (more edges than any <=8-node DAG can have), small query sets: size-dependent code paths
+    nbig = 0
+    for _ in range(ctx.share({"quick": 160, "thorough": 4000}[ctx.tier])):
+        n = rng.randint(10, 15)
+        gd = gg.random_admg(rng, n, hostile="none", p_di=rng.choice((0.5, 0.7, 0.9)), p_bi=rng.choice((0.05, 0.15, 0.3)))
+        g = gg.to_nx(gd)
+        gkey = gg.key(gd)
+        nbig += len(gd["di"]) > 32
+        order = gg.to_rg(gd).topological_order()
+        early = [str(v) for v in order[: max(4, n // 2)]]
+        for _q in range(10):
+            pool = early if rng.random() < 0.7 else gd["nodes"]  # few ancestors: the ancestral subgraph stays small
+            a, b = rng.sample(pool, 2)
+            rest = [x for x in pool if x not in (a, b)]
+            query(ctx, g, gd, a, b, sorted(rng.sample(rest, rng.randint(0, min(2, len(rest))))), gkey)
+    ctx.extras["graphs_with_more_than_32_directed_edges"] = nbig
+    # the separations the enumerator publishes (with and without a size limit) are separations
+    for _ in range(ctx.share({"quick": 600, "thorough": 12000}[ctx.tier])):
+        gd = gg.random_admg(rng, rng.randint(4, 6))
+        enumerate_case(ctx, gd, rng.choice([None, 0, 0, 1, 2]))
     # the oracle itself is cross-checked against exact models: a separation O3 reports must be an exact conditional
     # independence in every compatible model, a connection should show as a dependence in at least one of K models
     oracle_selfcheck(ctx, rng)
@@ -262,6 +319,10 @@ def replay(case):
 
     gd = case["graph"]
     gd = {"nodes": gd["nodes"], "di": gd["di"], "bi": gd["bi"]}
+    if case.get("enumerate"):
+        install_enumerator()
+        enumerate_case(_C(), gd, case.get("k"))
+        return
     if case.get("cf"):
         import random
 
@@ -279,3 +340,4 @@ from .. import mon_dsep
 
 def install_for_suite():
     mon_dsep.install()
+    install_enumerator()
